@@ -75,7 +75,37 @@ async def _maybe_sleep(d):
         await asyncio.sleep(d)
 
 
+class _HalfTickAsyncio:
+    """stands for the `asyncio` module inside baize.asgi.requests in the polling program: the virtual clock counts whole ticks, so a
+    sub-tick timeout (is_disconnected polls with 1e-7 s) becomes ONE unit while every other delay of that scenario is doubled --
+    the timeout then fires after everything that is ready and before anything that has to wait"""
+
+    def __getattr__(self, k):
+        return getattr(asyncio, k)
+
+    @staticmethod
+    def _t(timeout):
+        return 1 if isinstance(timeout, float) and 0 < timeout < 1 else timeout
+
+    def wait_for(self, fut, timeout=None):
+        return asyncio.wait_for(fut, self._t(timeout))
+
+    def wait(self, fs, *, timeout=None, return_when=asyncio.ALL_COMPLETED):
+        return asyncio.wait(fs, timeout=self._t(timeout), return_when=return_when)
+
+
 def asgi_scenario(job, V):
+    if job["prog"] == "poll-disconnect+body" and not isinstance(AQ.asyncio, _HalfTickAsyncio):
+        real = AQ.asyncio
+        AQ.asyncio = _HalfTickAsyncio()
+        try:
+            return asgi_scenario(job, dict(V, d=[x * 2 for x in V["d"]], w=[x * 2 for x in V["w"]]))
+        finally:
+            AQ.asyncio = real
+    return _asgi_scenario(job, V)
+
+
+def _asgi_scenario(job, V):
     """V: nmsg (int), empty (list[bool]), disc (int: index of the receive() call that returns disconnect, N+1 = never),
     d (list of delays), w (list of task start offsets) -- ints or SInt (choices are made by the caller)."""
     prog = job["prog"]
@@ -87,9 +117,10 @@ def asgi_scenario(job, V):
     ctype = {"json": b"application/json", "form": b"application/x-www-form-urlencoded", "raw": b"application/octet-stream"}[kind]
 
     async def receive():
+        # cancellation-safe like a server's queue: a receive() cancelled while waiting (asyncio.wait_for) has consumed nothing
+        await _maybe_sleep(V["d"][min(log["receives"], len(V["d"]) - 1)])
         i = log["receives"]
         log["receives"] += 1
-        await _maybe_sleep(V["d"][min(i, len(V["d"]) - 1)])
         if i == disc:
             log["delivered"].append("disconnect")
             return {"type": "http.disconnect"}
@@ -222,11 +253,18 @@ def _p_two_readers(first_kind, second_kind):
     return prog
 
 
+async def p_poll_then_body(req, V, log):
+    """is_disconnected() polled while the client is still quiet (no message ready), then the body is read: nothing may get lost"""
+    polled = await req.is_disconnected()
+    b = await _get(req.body)
+    return {"body": [b], "polled": polled}
+
+
 PROGRAMS = {"body2+stream": p_body_twice_then_stream, "concurrent-body": p_concurrent_bodies, "stream+body": p_stream_then_body,
             "json+body": p_json_then_body, "form+body+close": p_form_then_body_close, "concurrent-body-json": p_concurrent_body_json,
-            "close+body": p_close_then_body, "concurrent-body-stream": _p_two_readers("body", "stream"),
+            "close+body": p_close_then_body, "poll-disconnect+body": p_poll_then_body, "concurrent-body-stream": _p_two_readers("body", "stream"),
             "concurrent-stream-body": _p_two_readers("stream", "body"), "concurrent-stream-stream": _p_two_readers("stream", "stream")}
-PAYLOAD = {"concurrent-body-stream": "raw", "concurrent-stream-body": "raw", "concurrent-stream-stream": "raw",
+PAYLOAD = {"poll-disconnect+body": "raw", "concurrent-body-stream": "raw", "concurrent-stream-body": "raw", "concurrent-stream-stream": "raw",
            "body2+stream": "raw", "concurrent-body": "raw", "stream+body": "raw", "json+body": "json", "form+body+close": "form",
            "concurrent-body-json": "json", "close+body": "raw"}
 
@@ -311,6 +349,8 @@ def sym_asgi(eng: Engine, job):
     w = [SInt(z3.Int(f"w{i}")) for i in range(max(1, tasks - 1))]
     for x in d + w:
         eng.solver.add(x.e >= 0, x.e <= 30)
+    if job["prog"] == "poll-disconnect+body":
+        eng.solver.add(d[0].e >= 1)  # the poll happens while no server message is ready (a ready body chunk is consumed by the poll: upstream's documented limit)
     return d, w
 
 
